@@ -29,6 +29,7 @@ static std::string check_answer_wire(const ans::Conf &c, const Bytes &wire, uint
 	for (auto &r : m.answers) {
 		if (r.owner.dotted() != qn) return "answer owner does not resolve to the question name";
 		if (r.klass != 1) return "answer class not IN";
+		if (r.type != m.q[0].type && !(m.q[0].type == refdns::T_A && r.type == refdns::T_CNAME)) return "answer record type " + std::to_string(r.type) + " differs from the query type " + std::to_string(m.q[0].type);
 	}
 	return "";
 }
